@@ -10,7 +10,7 @@ ASSUMPTIONS = [
     'all times are multiples of 2^-10 s so every float operation in send_request is exact',
 ]
 RULE = ('timing suite: configurations (request_timeout None/values, P2/P2* above/below/equal to it, server timing, per-call timeout incl. 0) x '
-        'schedules of k pending replies + final positive/negative/invalid/silence with every arrival placed before / exactly at / one tick '
+        'a transport whose send() returns at once or blocks for a while x schedules of k pending replies + final positive/negative/invalid/silence with every arrival placed before / exactly at / one tick '
         'after its window; the real client under the virtual clock vs udsdrv, and vs an independent Python recomputation of the windows. '
         'distinct = distinct input lines; non-trivial = at least one wait happened')
 TRUSTED_EXTRA = ['harness/stub.py: stub connection and virtual clock (connection contract stated in Uds/Model/Send.lean)']
@@ -104,6 +104,7 @@ def suite_timing(ctx):
         line = 'send %s svc=%s sf=%s rspr=0 data=- timeout=%s arr=%s' % (cfg.line(), svc, onat(sf), onat(percall), cl.arrivals_str(arr))
         client, conn = cl.make_client(cfg)
         conn.script = list(arr)
+        conn.send_delay = rng.choice([0, 0, 1, 300, 6000])    # a transport whose send() blocks: the deadline counts from its return
         req = Request(svcs[svc], subfunction=sf)
         tmo = -1 if percall is None else percall * cl.TICK
         obs = cl.observe(conn, lambda: client.send_request(req, timeout=tmo))
@@ -119,7 +120,7 @@ def suite_timing(ctx):
         got_oc = 'resp' if m.startswith('resp:') else ('timeout' if m.startswith('raise:timeout') else
                                                       (m.split(' ')[0][6:] if m.startswith('raise:negative') else 'other'))
         got_end = float(obs.split(' end=')[1].split(' ')[0])
-        rec = {'site': 'send_request', 'input': line, 'rt': rt, 'percall': percall}
+        rec = {'site': 'send_request', 'input': line, 'rt': rt, 'percall': percall, 'send_blocks_for_ticks': conn.send_delay}
         if got_waits != [(float(a), float(b)) for a, b in waits]:
             s.fail(dict(rec, observed='waits %s' % got_waits, required='waits %s' % waits))
         elif got_oc != oc and not (oc == 'other' and got_oc not in ('resp', 'timeout')):
